@@ -15,7 +15,11 @@ RULE = ("cases = DUT variant (standalone=True, address 0 | decoder + real token 
         "transactions (token to us / foreign address / any endpoint; DATA0/1 with 8 valid bytes, corrupted CRC, 0..7 "
         "or 9..12 bytes, PID only, aborted), retries (SETUP, bad DATA0, SETUP, DATA0), foreign transactions after a "
         "failed SETUP, IN/OUT/PING/SOF tokens ours and foreign, bad-CRC5 tokens, handshakes, random PID bytes; dense "
-        "and FS-like byte timing, packet separation down to 1 cycle; 'hostile' cases add illegal UTMI patterns and "
+        "and FS-like byte timing, packet separation down to 1 cycle; 'embedded' items put a well-formed packet INSIDE a "
+        "longer one (over-long DATA after a SETUP token whose tail is data-PID + 8 bytes + their CRC16 at every offset "
+        "around the 10-byte capture limit, with the outer CRC16 valid as well in half of them; valid packet + trailing "
+        "bytes; token + data packet in one burst; SETUP token inside a handshake/data burst; doubled PID), at "
+        "back-to-back (HS), 4-gap and real 40-cycle (FS) byte timing; 'hostile' cases add illegal UTMI patterns and "
         "short gaps after data packets (model comparison only, monitor off)")
 ASSUMPTIONS = [
     "LegalRx: rx_valid only while rx_active and not in the cycle in which rx_active rises; packets separated by >= 1 "
@@ -112,14 +116,98 @@ def garbage_packet(rng, addr):
         return [], kind
     return U.token_packet(U.PID_SETUP, addr, 0) + rng.bytes(rng.range(1, 3)), kind
 
+class Pkt(list):
+    """packet bytes with an optional byte-timing override (`style`) for render()"""
+    style = None
+
+
+def solve_outer_crc(prefix, suffix, target):
+    """two bytes [a, b] with usb2_crc16(prefix + [a, b] + suffix) == target, or None (the CRC is affine over GF(2):
+    16 evaluations of the reference CRC and a Gaussian elimination)"""
+    def f(x):
+        return U.usb2_crc16(prefix + [x & 255, x >> 8] + suffix)
+    f0 = f(0)
+    basis = {}
+    for i in range(16):
+        c, m = f(1 << i) ^ f0, 1 << i
+        while c:
+            h = c.bit_length() - 1
+            if h not in basis:
+                basis[h] = (c, m)
+                break
+            c, m = c ^ basis[h][0], m ^ basis[h][1]
+    w, x = target ^ f0, 0
+    while w:
+        h = w.bit_length() - 1
+        if h not in basis:
+            return None
+        w, x = w ^ basis[h][0], x ^ basis[h][1]
+    return [x & 255, x >> 8]
+
+
+def embedded_item(rng, addr):
+    """packets in which a well-formed packet sits INSIDE a longer one (a deserializer / token detector that
+    resynchronises in mid-packet would see it).  Returns (list of Pkt, shape name)."""
+    body = setup_data(rng)
+    tok = Pkt(U.token_packet(U.PID_SETUP, addr, rng.choice([0, 0, 0, rng.below(16)])))
+    dpid = U.pid_byte(rng.choice([U.PID_DATA0, U.PID_DATA0, U.PID_DATA1]))
+    shape = rng.weighted([(46, "tail-setup"), (8, "tail-short"), (10, "valid-then-junk"), (8, "token+data"),
+                          (8, "junk+token"), (8, "data+token"), (6, "double-pid"), (6, "mid-setup")])
+    style = rng.choice([None, "hs", "hs", "fs4", "fs4", "fs40"])
+    armed = rng.chance(80)
+    pre = [tok] if armed else []
+    if shape in ("tail-setup", "tail-short", "mid-setup"):
+        inner = body if shape != "tail-short" else body[:rng.range(0, 7)]
+        inner_pkt = U.data_packet(rng.choice([U.PID_DATA0, U.PID_DATA0, U.PID_DATA1]), inner)
+        # the capture buffer holds 10 bytes; byte 11 is the over-length exit.  A deserializer that resynchronises there
+        # takes byte 12 (byte 13 at back-to-back timing) as the next PID: matched offsets most of the time.
+        if rng.chance(75):
+            nfill = 12 if style == "hs" else 11 if style in ("fs4", "fs40") else rng.choice([11, 12])
+        else:
+            nfill = rng.range(8, 15)
+        filler = rng.bytes(nfill)
+        if shape == "mid-setup":
+            p = [dpid] + filler + inner_pkt + rng.bytes(rng.range(1, 3))     # ... and trailing bytes after the inner CRC
+        else:
+            if rng.chance(50):
+                # the last two bytes are the CRC16 of the inner payload AND of the whole outer payload
+                k = rng.below(nfill - 1)
+                ab = solve_outer_crc(filler[:k], filler[k + 2:] + inner_pkt[:-2], inner_pkt[-2] | (inner_pkt[-1] << 8))
+                if ab is not None:
+                    filler[k:k + 2] = ab
+                    shape += "+outer-crc-valid"
+            p = [dpid] + filler + inner_pkt
+        out = pre + [Pkt(p)]
+    elif shape == "valid-then-junk":
+        out = pre + [Pkt(U.data_packet(U.PID_DATA0, body) + rng.bytes(rng.range(1, 4)))]
+    elif shape == "token+data":
+        # missing end-of-packet between the token and its data packet: one burst, neither is a packet
+        out = [Pkt(list(tok) + U.data_packet(U.PID_DATA0, body))]
+    elif shape == "junk+token":
+        first = rng.choice([U.pid_byte(U.PID_ACK), U.pid_byte(U.PID_NAK), rng.below(256)])
+        out = [Pkt([first] + rng.bytes(rng.range(0, 3)) + list(tok)), Pkt(U.data_packet(U.PID_DATA0, body))]
+    elif shape == "data+token":
+        out = [Pkt([dpid] + rng.bytes(rng.range(0, 12)) + list(tok)), Pkt(U.data_packet(U.PID_DATA0, body))]
+    else:   # double-pid
+        out = pre + [Pkt([dpid] + U.data_packet(U.PID_DATA0, body))]
+    for q in out:
+        q.style = style
+    return out, shape
+
 
 def make_script(rng, addr):
     """list of packets (bytes) with tags."""
     pkts, tags = [], set()
     for _ in range(rng.range(6, 16)):
-        what = rng.weighted([(40, "setup"), (12, "retry"), (8, "foreign-after-fail"), (8, "own-token-between"),
-                             (6, "foreign-setup"), (26, "garbage")])
+        what = rng.weighted([(34, "setup"), (10, "retry"), (7, "foreign-after-fail"), (7, "own-token-between"),
+                             (5, "foreign-setup"), (22, "garbage"), (15, "embedded")])
         tags.add("item:" + what)
+        if what == "embedded":
+            ps, k = embedded_item(rng, addr)
+            tags.add("embedded:" + k)
+            tags.add("embedded-timing:" + str(ps[0].style))
+            pkts += ps
+            continue
         if what == "garbage":
             for _ in range(rng.range(1, 3)):
                 p, k = garbage_packet(rng, addr)
@@ -160,10 +248,12 @@ def render(rng, pkts, delay, hostile):
     style = rng.choice(["dense", "dense", "mixed", "fs"])
     for p in pkts:
         rows += [[1, 0, rng.below(256)] for _ in range(rng.choice([1, 1, 2, 3]))]
+        pstyle = getattr(p, "style", None) or style
         for b in p:
             rows.append([1, 1, b])
             g = {"dense": rng.choice([0, 0, 0, 0, 1]), "mixed": rng.choice([0, 1, 2, 5]),
-                 "fs": rng.choice([38, 40]) if len(p) <= 3 else rng.choice([0, 3, 4])}[style]
+                 "fs": rng.choice([38, 40]) if len(p) <= 3 else rng.choice([0, 3, 4]),
+                 "hs": 0, "fs4": 4, "fs40": rng.choice([39, 39, 40])}[pstyle]
             rows += [[1, 0, rng.below(256)] for _ in range(g)]
         is_data = bool(p) and U.pid_ok(p[0]) and (p[0] & 3) == 3
         gap = rng.choice([1, 1, 1, 2, 3, 6, 14])
